@@ -1,12 +1,25 @@
 """C05 - bucket lifecycle: create, list, describe, update, delete behave as a keyed map."""
+S = "aw_datastore.storages.sqlite.SqliteStorage."
 PROP = dict(
     id="C05",
     level="other",
-    contract_modules=["contracts.models"],
-    spec_modules=["contracts.models"],
-    functions=[],
+    contract_modules=["contracts.models", "contracts.sqlite"],
+    spec_modules=["contracts.sqlite"],
+    functions=[dict(fn=S + "create_bucket", rt_skip=True),
+               dict(fn=S + "delete_bucket", rt_skip=True),
+               dict(fn=S + "get_metadata", rt_skip=True),
+               dict(fn=S + "buckets", rt_skip=True)],
+    timeout_s=20,
     extra=[lambda run: run.storage_histories("C05")],
     technique="run-time refinement check of the real back ends against a reference list over random histories (bounded); "
-              "contract-based proof of the sqlite methods is layered on top where built",
-    explanation="bounded: random histories of bucket create / update / delete / re-create mixed with event writes and lookups of missing buckets (KeyError for lookup, ValueError for describe/update/delete, nothing changed) on the three back ends against the reference map.",
+              "with the sqlite methods proved against contracts over the table state (SQL text parsed from the source)",
+    explanation="deductive (sqlite): create_bucket adds exactly one bucket row (row id never used before) with exactly the metadata given, empty, durable on return, and raises IntegrityError leaving everything unchanged if the id exists; delete_bucket removes the row and all of its events and nothing else, durable on return, ValueError if absent; get_metadata / buckets() describe exactly the live rows. update_bucket builds its SQL dynamically and is covered by the bounded check only. " 
+                "bounded: random histories of bucket create / update / delete / re-create mixed with event writes and lookups of missing buckets (KeyError for lookup, ValueError for describe/update/delete, nothing changed) on the three back ends against the reference map.",
 )
+
+F = "/repo/aw_datastore/storages/sqlite.py"
+MUTANTS = [
+    (F, 'cursor = self.conn.execute("DELETE FROM buckets WHERE id = ?", [bucket_id])', 'cursor = self.conn.execute("DELETE FROM buckets WHERE id >= ?", [bucket_id])', True),   # delete_bucket removes later buckets
+    (F, '        if cursor.rowcount != 1:\n            raise ValueError("Bucket did not exist, could not delete")', '        if cursor.rowcount > 1:\n            raise ValueError("Bucket did not exist, could not delete")', True),   # deleting a missing bucket succeeds
+    (F, '                "hostname": row[4],\n                "created": row[5],\n                "data": json.loads(row[6] or "{}"),\n            }\n        return buckets', '                "hostname": row[3],\n                "created": row[5],\n                "data": json.loads(row[6] or "{}"),\n            }\n        return buckets', True),   # listing shows client as hostname
+]
